@@ -1189,10 +1189,11 @@ bool _nthroot_mod_prime_power(std::vector<RCP<const Integer>> &roots,
                 return true;
             }
             if (k == 2) {
-                if (c > 0 and a % 4 == 3) {
+                mp_fdiv_r(t, a, integer_class(4));
+                if (c > 0 and t == 3) {
                     return false;
                 }
-                roots.push_back(integer(a % 4));
+                roots.push_back(integer(t));
                 if (all_roots and c > 0)
                     roots.push_back(integer(3));
                 return true;
@@ -1322,7 +1323,8 @@ bool _is_nthroot_mod_prime_power(const integer_class &a, const integer_class &n,
                 return true;
             }
             if (k == 2) {
-                if (c > 0 and a % 4 == 3) {
+                mp_fdiv_r(t, a, integer_class(4));
+                if (c > 0 and t == 3) {
                     return false;
                 }
                 return true;
